@@ -207,6 +207,19 @@ def pr_leaves(fn, pre, vbranch, pbranch):
         node, kind, prev, order = conds[0], "cond", None, gsite.order
     tr = leaf._Translator(fn, ["P", "V_m", "R_TK", "b_sum"], rd_inline(fn, _G, ["P", "V_m", "R_TK", "b_sum"]), {}, False)
     extra += "Definition %slnphi_guard : bexpr :=\n  %s.\n" % (pre, tr_bool(tr, conds[0]))
+    # alpha(T) is recomputed whenever the temperature differs from the one it was computed for; a / b only when not yet set
+    sa = fn.select(lhs=PH + "pr_alpha", nth=1)
+    ac = [c for t, c in sa.conds if t == "if"]
+    if len(ac) != 1:
+        raise LeafError("%scalc_PR: the refresh of pr_alpha sits under %r" % (pre, ac))
+    nodes = if_node_of(fn, ac[0])
+    if len(nodes) != 1:
+        raise LeafError("%scalc_PR: refresh guard of pr_alpha not found" % pre)
+    tr = leaf._Translator(fn, [PH + "pr_tk", "TK"], {}, {}, False)
+    extra += "Definition %salpha_refresh_guard : bexpr :=\n  %s.\n" % (pre, tr_bool(tr, nodes[0]))
+    st = [s_ for s_ in fn.sites if s_.lhs == leaf._norm_name(PH + "pr_tk")]
+    extra += "Definition %spr_tk_stores : list (list string * string) := [%s].\n" % (
+        pre, "; ".join("(%s, %s)" % (strlist([c for t, c in s_.conds if t == "if"]), cs(leaf.render(s_.node))) for s_ in st))
     # shape facts: every assignment to pr_phi / pr_si_f / pr_p, and the conditions they sit under
     for lhs in ("pr_phi", "pr_si_f", "pr_p"):
         sites = [s for s in fn.sites if s.lhs == leaf._norm_name(PH + lhs)]
